@@ -14,6 +14,8 @@ RULES = {
     "C10.R4": "literal round trip: for each meta key the writer's encoding and the reader's decoding agree (str <-> ast.literal_eval, qtype.name <-> qtypes[...])",
     "C10.R5": "safetensors: plain tensors go to tensors, everything else to metadata; loading merges both",
     "C10.R10": "a reloaded unfrozen model computes with the weights it was given: the quantized weight is derived from the current self.weight on every access (no cache survives the in-place copy of load_state_dict) - the weight-source rule shared with C08.R7 / C09.R2-R3",
+    "C10.R13": "a sub-byte weight rebuilt on load reports the geometry that was saved: no QBits constructor / factory call takes size or stride from the (grouped) payload (rule C06.R10 re-checked)",
+    "C10.R12": "the activation-scale buffers of every target have the dtype and device of the module, whatever the configuration it was quantized with: load_state_dict copies the saved scales into them (rule C08.R9 re-checked)",
     "C10.R11": "state_dict tensors are the module's own: from_module copies weight and bias into the (contiguous, unshared) parameters the constructor allocated (C08.R4 re-checked), and every value written to the input_scale / output_scale buffers is a freshly computed tensor - never a reference to, or a view of, a tensor another object owns (safetensors refuses shared or non-contiguous tensors)",
     "C10.R6": "derived state: attributes that __init__ derives from weight_qtype are re-derived wherever weight_qtype is reassigned",
     "C10.R7": "requantize coverage: a kwarg that gates the creation of a registered module class is derived from the state_dict when re-quantizing",
@@ -700,6 +702,12 @@ def owned_tensors(chk):
     repo = chk.repo
     if chk.pid == "C10":
         c08.copy_rule(AliasedCheck(chk, {"C08.R4": "C10.R11"}))
+        # the buffers a state_dict is loaded into have the dtype of the model whatever the configuration the target was quantized with:
+        # load_state_dict copies INTO them, so a float32 placeholder turns a saved float16 scale into a float32 one
+        c08.scale_buffers(AliasedCheck(chk, {"C08.R9": "C10.R12"}), repo.cls("QModuleMixin"))
+        # a reloaded sub-byte weight is rebuilt (optimize()): the geometry it reports - and writes into the next state_dict - is the tensor's
+        from . import c06
+        c06.qbits_geometry(AliasedCheck(chk, {"C06.R10": "C10.R13"}), "C06.R10")
     names = ("input_scale", "output_scale")
     n = 0
     for mi in repo.modules.values():
